@@ -1021,7 +1021,7 @@ pub fn run(which: &'static str, tier: Tier, seed: u64) -> i32 {
     "enum member initialisers are declaration syntax (kept verbatim by design); counted".into(),
   ];
   rep.min_nontrivial = tier.pick(300, 10_000);
-  let n = tier.pick(18000, 720000);
+  let n = tier.pick(18000, 1440000);
   let mut acc = par_run(n, |i, acc| gen_case(i, seed, acc, which));
   corpus_case(&mut acc, which);
   rep.finish(acc)
